@@ -110,6 +110,24 @@ theorem matches_frozen_UserInfoRaw_default : MatchesFrozen siteDefault "UserInfo
 theorem matches_frozen_shmGV2_default : MatchesFrozen siteDefault "shmGV2" := by decide +kernel
 theorem matches_frozen_SHMRaw_default : MatchesFrozen siteDefault "SHMRaw" := by decide +kernel
 
+/-- "files written by either implementation are read back field for field by the other": for every record type
+that is serialised whole, the image `encoding/binary` reads and writes has exactly the frozen pttbbs members
+(names, offsets, sizes) and the frozen total size. -/
+theorem disk_images_interchangeable_default :
+    ∀ n ∈ ["UserecRaw", "Userec2Raw", "BoardHeaderRaw", "FileHeaderRaw", "PostLog"],
+      (cfgDefault.ty n).isSome = true ∧ (cfgDefault.ty n).map Ty.packed = (frozenOf kDefault n).map Frozen.fields ∧
+      (cfgDefault.ty n).map sizeP = (frozenOf kDefault n).map Frozen.sizeOf := by decide +kernel
+
+/-- every package-level constant defined as `unsafe.Offsetof(X.Field)` (the `BOARD_HEADER_*_OFFSET` and
+`USER_INFO_*_OFFSET` used for direct shared-memory access) has the frozen pttbbs offset of that member. -/
+theorem offset_consts_frozen_default :
+    ∀ e ∈ cfgDefault.offsetConsts, (frozenField kDefault e.2.1 e.2.2.1).map (·.1) = some e.2.2.2 := by decide +kernel
+
+/-- third opinion: the value the Go type checker computes for every `unsafe.Offsetof` in the partial-update
+functions is the model's aligned offset of that field. -/
+theorem offsetof_values_default :
+    ∀ u ∈ cfgDefault.updates, ∀ o ∈ u.2.2, (cfgDefault.offsetof o.1 o.2.1).map (·.1) = some o.2.2 := by decide +kernel
+
 /-- the documented record sizes. -/
 theorem disk_sizes_default :
     ["UserecRaw", "Userec2Raw", "BoardHeaderRaw", "FileHeaderRaw", "PostLog", "FavBoard"].map (fun n => (cfgDefault.ty n).map sizeA) =
@@ -148,6 +166,24 @@ theorem matches_frozen_MsgQueueRaw_docker : MatchesFrozen siteDocker "MsgQueueRa
 theorem matches_frozen_UserInfoRaw_docker : MatchesFrozen siteDocker "UserInfoRaw" := by decide +kernel
 theorem matches_frozen_shmGV2_docker : MatchesFrozen siteDocker "shmGV2" := by decide +kernel
 theorem matches_frozen_SHMRaw_docker : MatchesFrozen siteDocker "SHMRaw" := by decide +kernel
+
+/-- "files written by either implementation are read back field for field by the other": for every record type
+that is serialised whole, the image `encoding/binary` reads and writes has exactly the frozen pttbbs members
+(names, offsets, sizes) and the frozen total size. -/
+theorem disk_images_interchangeable_docker :
+    ∀ n ∈ ["UserecRaw", "Userec2Raw", "BoardHeaderRaw", "FileHeaderRaw", "PostLog"],
+      (cfgDocker.ty n).isSome = true ∧ (cfgDocker.ty n).map Ty.packed = (frozenOf kDocker n).map Frozen.fields ∧
+      (cfgDocker.ty n).map sizeP = (frozenOf kDocker n).map Frozen.sizeOf := by decide +kernel
+
+/-- every package-level constant defined as `unsafe.Offsetof(X.Field)` (the `BOARD_HEADER_*_OFFSET` and
+`USER_INFO_*_OFFSET` used for direct shared-memory access) has the frozen pttbbs offset of that member. -/
+theorem offset_consts_frozen_docker :
+    ∀ e ∈ cfgDocker.offsetConsts, (frozenField kDocker e.2.1 e.2.2.1).map (·.1) = some e.2.2.2 := by decide +kernel
+
+/-- third opinion: the value the Go type checker computes for every `unsafe.Offsetof` in the partial-update
+functions is the model's aligned offset of that field. -/
+theorem offsetof_values_docker :
+    ∀ u ∈ cfgDocker.updates, ∀ o ∈ u.2.2, (cfgDocker.offsetof o.1 o.2.1).map (·.1) = some o.2.2 := by decide +kernel
 
 /-- the documented record sizes. -/
 theorem disk_sizes_docker :
@@ -374,6 +410,93 @@ theorem passwdQueryUserLevel_field_docker (f : List Nat) (uid : Int) (r : List N
 /-- non-vacuity: the update succeeds on a two-record file, and the query pair returns a value. -/
 example : (passwdWrite cfgDefault "cmbbs.PasswdUpdatePasswd" (List.replicate 1024 7) 2 (List.replicate 14 1)).isSome = true ∧
     (passwdQuery cfgDocker (List.replicate 1024 7) 2).isSome = true := by decide +kernel
+
+/-! ### whole records -/
+
+/-- cmbbs.PasswdUpdate (whole-record writer): a successful call rewrites exactly that user's record. -/
+theorem passwd_record_update_frame (c : Config) (sz : Nat) (t : Ty)
+    (hs : c.seek "cmbbs.PasswdUpdate" = some ⟨some sz, []⟩) (ht : c.ty "UserecRaw" = some t) (hsz : sizeP t = sz)
+    (f : List Nat) (uid : Int) (r f' : List Nat) (h : passwdUpdate c f uid r = some f') :
+    ∃ u : Nat, uid = (u : Int) ∧ 1 ≤ u ∧ r.length = sz ∧
+      (u * sz ≤ f.length →
+        f'.length = f.length ∧ (∀ v, v ≠ u - 1 → slot f' sz v = slot f sz v) ∧ slot f' sz (u - 1) = r) := by
+  obtain ⟨u, hu, hr, rfl⟩ := passwdUpdate_some c f uid r f' sz t hs ht h
+  obtain ⟨h1, h2, _⟩ := validUid_some c uid u hu
+  rw [hsz] at hr
+  refine ⟨u, h1, h2, hr, fun hin => ?_⟩
+  obtain ⟨a1, _, _, a4, a5, _⟩ := update_field_frame f sz u 0 r h2 (by omega) hin
+  refine ⟨a1, a4, ?_⟩
+  have hl : (slot (writeAt f (seekPos sz u 0) r) sz (u - 1)).length = sz := by
+    have hm : u * sz = (u - 1) * sz + sz := by
+      obtain ⟨w, rfl⟩ : ∃ w, u = w + 1 := ⟨u - 1, by omega⟩
+      simp [Nat.succ_mul]
+    simp [slot, a1]; omega
+  have : fieldBytes (slot (writeAt f (seekPos sz u 0) r) sz (u - 1)) 0 r.length
+      = slot (writeAt f (seekPos sz u 0) r) sz (u - 1) := by
+    rw [hr]; unfold fieldBytes
+    rw [List.drop_zero]; exact List.take_of_length_le (by omega)
+  rw [← this]; exact a5
+
+theorem passwdUpdate_frame_default (f : List Nat) (uid : Int) (r f' : List Nat)
+    (h : passwdUpdate cfgDefault f uid r = some f') :
+    ∃ u : Nat, uid = (u : Int) ∧ 1 ≤ u ∧ r.length = 512 ∧
+      (u * 512 ≤ f.length →
+        f'.length = f.length ∧ (∀ v, v ≠ u - 1 → slot f' 512 v = slot f 512 v) ∧ slot f' 512 (u - 1) = r) :=
+  passwd_record_update_frame cfgDefault 512 _ (by decide +kernel) rfl (by decide +kernel) f uid r f' h
+
+theorem passwdUpdate_frame_docker (f : List Nat) (uid : Int) (r f' : List Nat)
+    (h : passwdUpdate cfgDocker f uid r = some f') :
+    ∃ u : Nat, uid = (u : Int) ∧ 1 ≤ u ∧ r.length = 512 ∧
+      (u * 512 ≤ f.length →
+        f'.length = f.length ∧ (∀ v, v ≠ u - 1 → slot f' 512 v = slot f 512 v) ∧ slot f' 512 (u - 1) = r) :=
+  passwd_record_update_frame cfgDocker 512 _ (by decide +kernel) rfl (by decide +kernel) f uid r f' h
+
+/-- UNIVERSAL (all layout trees, fields, values, sizes): the image `types.BinWrite` produces for a zero struct
+with one field set has the requested total length, carries the value at the field's packed offset and is
+zero everywhere else — so a reader that slices the same (offset, size) gets the value back, which by
+`disk_images_interchangeable_*` / `fav_entry_*` is what pttbbs does. -/
+theorem binWrite_image (t : Ty) (i : Nat) (val : List Nat) (total : Nat) (img : List Nat)
+    (name : String) (off n : Nat) (hf : t.packed[i]? = some (name, off, n))
+    (h : writeFieldPacked t i val total = some img) :
+    img.length = total ∧ fieldBytes img off n = val ∧
+    ∀ j, (j < off ∨ off + n ≤ j) → j < total → img[j]? = some 0 := by
+  have hb := packed_field_bound t i _ hf
+  simp only at hb
+  unfold writeFieldPacked at h
+  simp only [hf] at h
+  split at h
+  · cases h
+  · rename_i hv
+    split at h
+    · cases h
+    · rename_i ht
+      simp only [Option.some.injEq] at h
+      have hv' : val.length = n := by simpa using hv
+      have hz : (List.replicate (sizeP t) 0).length = sizeP t := by simp
+      have hw : (writeAt (List.replicate (sizeP t) 0) off val).length = sizeP t := by
+        rw [writeAt_length_of_le _ _ _ (by rw [hz]; omega), hz]
+      subst h
+      refine ⟨by simp [hw]; omega, ?_, ?_⟩
+      · apply List.ext_getElem?
+        intro k
+        rw [fieldBytes_getElem?]
+        by_cases hk : k < n
+        · simp only [hk, if_true]
+          rw [List.getElem?_append_left (by rw [hw]; omega)]
+          exact writeAt_inside _ off val k (by omega)
+        · simp only [hk, if_false]
+          rw [List.getElem?_eq_none (by omega)]
+      · intro j hj hjt
+        by_cases hjs : j < sizeP t
+        · rw [List.getElem?_append_left (by rw [hw]; exact hjs),
+            writeAt_outside _ off val (by rw [hz]; omega) j (by omega)]
+          simp [hjs]
+        · rw [List.getElem?_append_right (by rw [hw]; omega), hw, List.getElem?_replicate]
+          rw [if_pos (by omega)]
+
+/-- non-vacuity: the 12-byte `.fav` board entry with `Attr` set. -/
+example : writeFieldPacked Gen.LayoutDefault.tFavBoard 2 [1] 12 = some [0,0,0,0, 0,0,0,0, 1, 0,0,0] := by
+  decide +kernel
 
 /-! ### `.passwd2` (level-2 permissions) -/
 
